@@ -73,7 +73,14 @@ Definition self_is_write (f : fnsig) : bool :=
 Definition has_self_recv (f : fnsig) : bool :=
   match fs_recv f with RNone => false | _ => true end.
 
-Definition is_write_fn (f : fnsig) : bool := yields_write (fs_ret f).
+(** Only what code OUTSIDE the crate can call is a source of [Write] for a client program: [pub]
+    functions and methods of trait impls / provided trait methods (a [pub] item of a private module is
+    counted too: conservative).  Private and [pub(crate)] / [pub(super)] functions are reachable only
+    through such a function, and then it is THAT function's signature (and its body facts, which the
+    translator reports with the bodies of the private helpers it calls inlined) that is judged below. *)
+Definition is_public (f : fnsig) : bool := String.eqb (fs_vis f) "pub" || String.eqb (fs_vis f) "trait".
+
+Definition is_write_fn (f : fnsig) : bool := yields_write (fs_ret f) && is_public f.
 Definition is_projection (f : fnsig) : bool := is_write_fn f && self_is_write f && has_self_recv f.
 Definition is_ctor (f : fnsig) : bool := is_write_fn f && negb (is_projection f).
 
@@ -172,10 +179,17 @@ Definition field_macro_ok (m : macro_shape) : bool :=
   && String.eqb (ms_body_fn m) "__from_ref_and_ptr"
   && strs_eqb (ms_body_args m) ["$field"; "$field as * const _"].
 
+(** [unlock!(v, Type, field)] is [field!(v, Type, field).unlock()]: one rule; the macro invoked is the
+    crate's [__field] ([ms_scrutinee]: resolved by the translator through the crate's re-exports --
+    [$crate::__field!] and [$crate::barrier::field!] name the same macro --, and judged by
+    [field_macro_ok]); its arguments are the three metavariables, in order; the method is [unlock]. *)
 Definition unlock_macro_ok (m : macro_shape) : bool :=
   ms_found m && Nat.eqb (ms_rules m) 1
   && String.eqb (ms_matcher m) "$ value : expr , $ type : path , $ field : ident"
-  && String.eqb (ms_text m) "$ crate :: barrier :: field ! ($ value , $ type , $ field) . unlock ()".
+  && String.eqb (ms_scrutinee m) "__field"
+  && String.eqb (ms_body_fn m) "unlock"
+  && strs_eqb (ms_body_args m) ["$value"; "$type"; "$field"]
+  && negb (ms_body_unsafe m).
 
 (** ** Tables and the calculus *)
 Record tables := {
@@ -313,8 +327,6 @@ Fixpoint borrows_cell (under_ref : bool) (t : ty) : bool :=
   | TTuple ts => existsb (borrows_cell under_ref) ts
   | _ => false
   end.
-
-Definition is_public (f : fnsig) : bool := String.eqb (fs_vis f) "pub" || String.eqb (fs_vis f) "trait".
 
 Definition recv_is_write_ref (f : fnsig) : bool :=
   self_is_write f && match fs_recv f with RRef => true | _ => false end.
